@@ -302,7 +302,8 @@ def oneMemLoc (mk : MemLoc → Command) (rest : List Char) : ParseOutcome :=
 
 /-- Arguments of each command (`help.txt`):
 `help` ignores its arguments; `step`, `step out`, `continue`, `registers`, `reset`, `quit`,
-`exit`, `break list` take none; `step into COUNT?` (default 1, and 0 means 1); `print LOCATION`;
+`exit`, `break list` take none; `step into COUNT?` (default 1, and 0 means 1);
+`print LOCATION?` (default: the program counter, `^0`);
 `move LOCATION VALUE`; `goto` / `break add` / `break remove` `LOCATION` (a memory location);
 `assembly LOCATION?` (default: the program counter, `^0`); `eval` / `echo` take the rest of the
 line, trimmed, which must not be empty. -/
@@ -323,6 +324,7 @@ def arguments (name : CommandName) (rest : List Char) : ParseOutcome :=
     | some k => done (.stepInto (if k = 0#16 then 1#16 else k)) (afterWord rest)
     | none => .err
   | .print =>
+    if noMoreWords rest then .ok (.print (.mem (.pcOffset 0))) else
     match locArg (firstWord rest) with
     | some l => done (.print l) (afterWord rest)
     | none => .err
